@@ -8,9 +8,36 @@ from .pyvc import (BreakSig, ContinueSig, Frame, ListModel, OutOfSubset, PathEnd
                    is_true, simp)
 
 
-def loop_spec(eng, fr):
+def static_ordinals(eng, qual):
+    """loop ordinal = position of the For/While statement in source order inside the function (nested functions excluded)"""
+    cache = eng.__dict__.setdefault("_loop_ordinals", {})
+    if qual not in cache:
+        fn = eng.repo.find(qual)
+        order = {}
+        if fn is not None:
+            loops = []
+
+            def walk(node):
+                for ch in ast.iter_child_nodes(node):
+                    if isinstance(ch, (ast.FunctionDef, ast.AsyncFunctionDef, ast.Lambda, ast.ClassDef)):
+                        continue
+                    if isinstance(ch, (ast.For, ast.While)):
+                        loops.append(ch)
+                    walk(ch)
+            walk(fn)
+            loops.sort(key=lambda n: (n.lineno, n.col_offset))
+            order = {(n.lineno, n.col_offset): i for i, n in enumerate(loops)}
+        cache[qual] = order
+    return cache[qual]
+
+
+def loop_spec(eng, fr, node=None):
     con = eng.reg.contract(fr.qual) or eng.reg.contract(eng.cur_func)
-    k = fr.loop_ordinal
+    order = static_ordinals(eng, fr.qual) if node is not None else {}
+    if node is not None and (node.lineno, node.col_offset) in order:
+        k = order[(node.lineno, node.col_offset)]
+    else:
+        k = fr.loop_ordinal
     fr.loop_ordinal += 1
     spec = None
     if con is not None:
@@ -175,7 +202,7 @@ def lex_less(new, old):
 
 
 def exec_while(eng, node, fr):
-    k, spec = loop_spec(eng, fr)
+    k, spec = loop_spec(eng, fr, node)
     label = "%s/loop%d" % (eng.cur_func if fr.qual == eng.cur_func or True else fr.qual, k)
     if fr.qual != eng.cur_func:
         label = "%s[%s]/loop%d" % (eng.cur_func, fr.qual.split(".")[-1], k)
@@ -243,7 +270,7 @@ def unroll_while(eng, node, fr, label, bound):
 
 
 def exec_for(eng, node, fr):
-    k, spec = loop_spec(eng, fr)
+    k, spec = loop_spec(eng, fr, node)
     label = "%s/loop%d" % (eng.cur_func, k)
     if fr.qual != eng.cur_func:
         label = "%s[%s]/loop%d" % (eng.cur_func, fr.qual.split(".")[-1], k)
@@ -291,6 +318,8 @@ def exec_for(eng, node, fr):
     fr.env[idx_name] = VInt(0)
     for nm, text in spec.invariants:
         eng.oblige("%s/inv-entry:%s" % (label, nm), eval_inv(eng, text, fr), clause=text, kind="loop-inv")
+    for nm, text in getattr(spec, "entry_only", []):
+        eng.oblige("%s/at-entry:%s" % (label, nm), eval_inv(eng, text, fr), clause=text, kind="loop-inv")
     havoc(eng, fr, node.body, spec)
     i = eng.fresh_int(idx_name)
     eng.assume(i.t >= 0)
